@@ -1,5 +1,7 @@
 import QipVerif.Gen.GatePaths
 import QipVerif.Lemmas.GateC
+import QipVerif.Lemmas.GateDoc
+import QipVerif.Lemmas.GateCtrl
 import QipVerif.Model.Circuit
 /-!
 # C09 — library gates are unitary, match their documented matrix, and are path-independent
@@ -10,6 +12,11 @@ paths, statement generated from the regenerated name→function tables) say that
 `Gate(name).get_compact_qobj()` and `GATE_CLASS_MAP[name](…).get_compact_qobj()` denote the same
 matrix for all parameter values.  Here: unitarity and documented form for all parameters, the
 fixed gates in exact arithmetic, and the block structure of the dedicated controlled gates.
+
+Second part (below `## Documented forms …`): the documented definitions of R, MS, RZX, BERKELEY, SWAPα, iSWAP, CPHASE and the
+rotations as matrix exponentials, unitarity of EVERY generated gate over ℂ for all parameters, `controlled_gate` for every
+number of controls / control value / single-qubit U / injective placement (model `Ctrl.controlledGate` of the code's
+block_diag + expand_operator construction, composed with C08), and the names each lookup path offers.
 -/
 namespace QipVerif.C09
 open QipVerif QipVerif.Gen QipVerif.GateC Complex Matrix
@@ -146,5 +153,285 @@ theorem ctrl_apply (U : Matrix (Fin 2) (Fin 2) ℂ) :
     (∀ i j : Fin 2, ctrl U ⟨2 + i.val, by omega⟩ ⟨2 + j.val, by omega⟩ = U i j) ∧
     (∀ i j : Fin 2, ctrl U ⟨i.val, by omega⟩ ⟨2 + j.val, by omega⟩ = 0 ∧ ctrl U ⟨2 + i.val, by omega⟩ ⟨j.val, by omega⟩ = 0) := by
   refine ⟨?_, ?_, ?_⟩ <;> intro i j <;> fin_cases i <;> fin_cases j <;> simp [ctrl]
+
+
+/-! ## Documented forms for all parameters: rotations about an involution and their exponentials -/
+open QipVerif.GateDoc QipVerif.GateKron
+
+/-- every rotation gate is `rotOf A θ = cos(θ/2)·1 − i·sin(θ/2)·A` for its axis `A` (an involution), and `rotOf A θ` is
+the matrix exponential `exp(−i·θ/2·A)` -/
+theorem rotOf_is_exp {n : ℕ} (A : Matrix (Fin n) (Fin n) ℂ) (hA : A * A = 1) (θ : ℝ) :
+    rotOf A θ = NormedSpace.exp ((-(I * ((θ : ℂ) / 2))) • A) := rotOf_eq_exp A hA θ
+
+theorem rx_exp (θ : ℝ) : G.rx_ θ = NormedSpace.exp ((-(I * ((θ : ℂ) / 2))) • G.x_gate_) := by
+  rw [← rotOf_eq_exp _ x_sq]; exact rx_doc θ
+theorem ry_exp (θ : ℝ) : G.ry_ θ = NormedSpace.exp ((-(I * ((θ : ℂ) / 2))) • G.y_gate_) := by
+  rw [← rotOf_eq_exp _ y_sq]; exact ry_doc θ
+theorem rz_exp (θ : ℝ) : G.rz_ θ = NormedSpace.exp ((-(I * ((θ : ℂ) / 2))) • G.z_gate_) := by
+  rw [← rotOf_eq_exp _ z_sq]; exact rz_doc θ
+
+/-- R gate (`qrot`): R(θ, φ) = cos(θ/2)·1 − i·sin(θ/2)·(cos φ·X + sin φ·Y) = exp(−iθ/2·(cos φ·X + sin φ·Y)) -/
+theorem qrot_doc (θ φ : ℝ) :
+    G.qrot_ θ φ = hc θ • (1 : Matrix (Fin 2) (Fin 2) ℂ) - (I * hs θ) • (ec φ • G.x_gate_ + es φ • G.y_gate_) :=
+  GateDoc.qrot_doc θ φ
+theorem qrot_exp (θ φ : ℝ) :
+    G.qrot_ θ φ = NormedSpace.exp ((-(I * ((θ : ℂ) / 2))) • (ec φ • G.x_gate_ + es φ • G.y_gate_)) := by
+  rw [GateDoc.qrot_doc, rotOf_eq_exp _ (axis_sq φ)]; rfl
+theorem qrot_unitary (θ φ : ℝ) : (G.qrot_ θ φ)ᴴ * G.qrot_ θ φ = 1 := by
+  rw [GateDoc.qrot_doc]; exact rotOf_unitary _ (axis_herm φ) (axis_sq φ) θ
+example : G.qrot_ Real.pi 0 = -I • G.x_gate_ := by
+  rw [GateDoc.qrot_doc]; unfold rotOf axis ec es
+  rw [hc_pi, hs_pi]; simp
+
+/-- Mølmer–Sørensen gate: MS(θ, φ) = exp(−iθ/2·n⊗n), n = cos φ·X + sin φ·Y, and the 4×4 matrix of the docstring -/
+theorem ms_doc (θ φ : ℝ) :
+    G.molmer_sorensen_ θ φ = hc θ • (1 : Matrix (Fin 4) (Fin 4) ℂ) -
+      (I * hs θ) • kron2 (ec φ • G.x_gate_ + es φ • G.y_gate_) (ec φ • G.x_gate_ + es φ • G.y_gate_) :=
+  GateDoc.ms_doc θ φ
+theorem ms_exp (θ φ : ℝ) :
+    G.molmer_sorensen_ θ φ = NormedSpace.exp ((-(I * ((θ : ℂ) / 2))) •
+      kron2 (ec φ • G.x_gate_ + es φ • G.y_gate_) (ec φ • G.x_gate_ + es φ • G.y_gate_)) := by
+  rw [GateDoc.ms_doc, rotOf_eq_exp _ (kron2_sq _ _ (axis_sq φ) (axis_sq φ))]; rfl
+/-- the matrix written in the docstring of the class `MS` -/
+theorem ms_doc_matrix (θ φ : ℝ) :
+    G.molmer_sorensen_ θ φ =
+      !![hc θ, 0, 0, -I * Complex.exp (-I * 2 * φ) * hs θ;
+         0, hc θ, -I * hs θ, 0;
+         0, -I * hs θ, hc θ, 0;
+         -I * Complex.exp (I * 2 * φ) * hs θ, 0, 0, hc θ] := rfl
+theorem ms_unitary (θ φ : ℝ) : (G.molmer_sorensen_ θ φ)ᴴ * G.molmer_sorensen_ θ φ = 1 := by
+  rw [GateDoc.ms_doc]
+  exact rotOf_unitary _ (kron2_herm _ _ (axis_herm φ) (axis_herm φ)) (kron2_sq _ _ (axis_sq φ) (axis_sq φ)) θ
+
+/-- RZX (class method with a literal matrix, `Gen.G.cls_RZX_`): RZX(θ) = exp(−iθ/2·Z⊗X) and the docstring matrix -/
+theorem rzx_doc (θ : ℝ) :
+    G.cls_RZX_ θ = hc θ • (1 : Matrix (Fin 4) (Fin 4) ℂ) - (I * hs θ) • kron2 G.z_gate_ G.x_gate_ :=
+  GateDoc.rzx_doc θ
+theorem rzx_exp (θ : ℝ) : G.cls_RZX_ θ = NormedSpace.exp ((-(I * ((θ : ℂ) / 2))) • kron2 G.z_gate_ G.x_gate_) := by
+  rw [GateDoc.rzx_doc, rotOf_eq_exp _ (kron2_sq _ _ z_sq x_sq)]
+theorem rzx_doc_matrix (θ : ℝ) :
+    G.cls_RZX_ θ = !![hc θ, -I * hs θ, 0, 0; -I * hs θ, hc θ, 0, 0; 0, 0, hc θ, I * hs θ; 0, 0, I * hs θ, hc θ] := rfl
+theorem rzx_unitary (θ : ℝ) : (G.cls_RZX_ θ)ᴴ * G.cls_RZX_ θ = 1 := by
+  rw [GateDoc.rzx_doc]
+  exact rotOf_unitary _ (kron2_herm _ _ z_herm x_herm) (kron2_sq _ _ z_sq x_sq) θ
+
+/-- BERKELEY: the documented matrix in cos π/8, sin π/8, cos 3π/8, sin 3π/8; it is exp(i·π/8·(2·X⊗X + Y⊗Y)); unitary -/
+theorem berkeley_doc :
+    G.berkeley_ = !![c8, 0, 0, I * s8; 0, c38, I * s38, 0; 0, I * s38, c38, 0; I * s8, 0, 0, c8] := berkeley_eq
+theorem berkeley_exp :
+    G.berkeley_ = NormedSpace.exp ((I * (Real.pi : ℂ) / 8) •
+      ((2 : ℂ) • kron2 G.x_gate_ G.x_gate_ + kron2 G.y_gate_ G.y_gate_)) := GateDoc.berkeley_exp
+theorem berkeley_unitary : (G.berkeley_)ᴴ * G.berkeley_ = 1 := GateDoc.berkeley_unitary
+
+/-- SWAPα: documented form, unitarity, group law, SWAPα(0) = 1, SWAPα(½) = √SWAP, SWAPα(1) = SWAP -/
+theorem swapalpha_doc (α : ℝ) :
+    G.swapalpha_ α = !![1, 0, 0, 0;
+      0, 1 / 2 * (1 + Complex.exp (I * Real.pi * α)), 1 / 2 * (1 - Complex.exp (I * Real.pi * α)), 0;
+      0, 1 / 2 * (1 - Complex.exp (I * Real.pi * α)), 1 / 2 * (1 + Complex.exp (I * Real.pi * α)), 0;
+      0, 0, 0, 1] := rfl
+theorem swapalpha_mix (α : ℝ) :
+    G.swapalpha_ α = (1 / 2 * (1 + Complex.exp (I * Real.pi * α))) • (1 : Matrix (Fin 4) (Fin 4) ℂ) +
+      (1 / 2 * (1 - Complex.exp (I * Real.pi * α))) • G.swap_ := GateDoc.swapalpha_doc α
+theorem swapalpha_unitary (α : ℝ) : (G.swapalpha_ α)ᴴ * G.swapalpha_ α = 1 := GateDoc.swapalpha_unitary α
+theorem swapalpha_mul (α β : ℝ) : G.swapalpha_ α * G.swapalpha_ β = G.swapalpha_ (α + β) := GateDoc.swapalpha_mul α β
+theorem swapalpha_special :
+    G.swapalpha_ 0 = 1 ∧ G.swapalpha_ (1 / 2) = G.sqrtswap_ ∧ G.swapalpha_ 1 = G.swap_ :=
+  ⟨swapalpha_zero, swapalpha_half, swapalpha_one⟩
+
+/-- the square-root gates over ℂ (generated matrices): √SWAP² = SWAP, √iSWAP² = iSWAP -/
+theorem sqrtswap_sq : G.sqrtswap_ * G.sqrtswap_ = G.swap_ := GateDoc.sqrtswap_sq
+theorem sqrtiswap_sq : G.sqrtiswap_ * G.sqrtiswap_ = G.iswap_ := GateDoc.sqrtiswap_sq
+
+/-- iSWAP = ½(1 + Z⊗Z) + (i/2)(X⊗X + Y⊗Y), and the docstring matrix -/
+theorem iswap_doc : G.iswap_ = (1 / 2 : ℂ) • (1 + kron2 G.z_gate_ G.z_gate_) +
+    (I / 2) • (kron2 G.x_gate_ G.x_gate_ + kron2 G.y_gate_ G.y_gate_) := GateDoc.iswap_doc
+theorem iswap_doc_matrix : G.iswap_ = !![1, 0, 0, 0; 0, 0, I, 0; 0, I, 0, 0; 0, 0, 0, 1] := rfl
+
+/-- `cphase(θ)` (translated construction |1⟩⟨1|⊗phasegate(θ) + |0⟩⟨0|⊗1, N = 2, control 0, target 1) is the controlled
+phase gate, i.e. the docstring matrix diag(1, 1, 1, e^{iθ}) -/
+theorem cphase_eq_ctrl (θ : ℝ) : G.cphase_ θ = ctrl (G.phasegate_ θ) := GateDoc.cphase_eq_ctrl θ
+theorem cphase_doc_matrix (θ : ℝ) :
+    G.cphase_ θ = !![1, 0, 0, 0; 0, 1, 0, 0; 0, 0, 1, 0; 0, 0, 0, Complex.exp (I * θ)] := by
+  rw [GateDoc.cphase_eq_ctrl]
+  ext i j; fin_cases i <;> fin_cases j <;> simp [ctrl, G.phasegate_]
+
+/-! ## Unitarity of every generated gate over ℂ -/
+
+/-- `ctrl U` is unitary when `U` is -/
+theorem ctrl_unitary (U : Matrix (Fin 2) (Fin 2) ℂ) (h : Uᴴ * U = 1) : (ctrl U)ᴴ * ctrl U = 1 := GateDoc.ctrl_unitary U h
+
+/-- every parametric gate offered by a lookup path is unitary for ALL parameter values -/
+theorem parametric_gates_unitary (θ φ γ : ℝ) :
+    (G.rx_ θ)ᴴ * G.rx_ θ = 1 ∧ (G.ry_ θ)ᴴ * G.ry_ θ = 1 ∧ (G.rz_ θ)ᴴ * G.rz_ θ = 1 ∧
+    (G.phasegate_ θ)ᴴ * G.phasegate_ θ = 1 ∧ (G.qrot_ θ φ)ᴴ * G.qrot_ θ φ = 1 ∧
+    (G.qasmu_gate_ θ φ γ)ᴴ * G.qasmu_gate_ θ φ γ = 1 ∧ (G.swapalpha_ θ)ᴴ * G.swapalpha_ θ = 1 ∧
+    (G.molmer_sorensen_ θ φ)ᴴ * G.molmer_sorensen_ θ φ = 1 ∧ (G.cls_RZX_ θ)ᴴ * G.cls_RZX_ θ = 1 ∧
+    (G.cphase_ θ)ᴴ * G.cphase_ θ = 1 ∧
+    (ctrl (G.rx_ θ))ᴴ * ctrl (G.rx_ θ) = 1 ∧ (ctrl (G.ry_ θ))ᴴ * ctrl (G.ry_ θ) = 1 ∧
+    (ctrl (G.rz_ θ))ᴴ * ctrl (G.rz_ θ) = 1 :=
+  ⟨rx_unitary θ, ry_unitary θ, rz_unitary θ, phasegate_unitary θ, qrot_unitary θ φ, qasmu_unitary θ φ γ,
+   swapalpha_unitary θ, ms_unitary θ φ, rzx_unitary θ,
+   by rw [GateDoc.cphase_eq_ctrl]; exact GateDoc.ctrl_unitary _ (phasegate_unitary θ),
+   GateDoc.ctrl_unitary _ (rx_unitary θ), GateDoc.ctrl_unitary _ (ry_unitary θ), GateDoc.ctrl_unitary _ (rz_unitary θ)⟩
+
+/-- every fixed gate function of gates.py (generated matrix over ℂ) is unitary -/
+theorem fixed_gates_unitary_C :
+    (G.x_gate_)ᴴ * G.x_gate_ = 1 ∧ (G.y_gate_)ᴴ * G.y_gate_ = 1 ∧ (G.z_gate_)ᴴ * G.z_gate_ = 1 ∧
+    (G.s_gate_)ᴴ * G.s_gate_ = 1 ∧ (G.t_gate_)ᴴ * G.t_gate_ = 1 ∧ (G.snot_)ᴴ * G.snot_ = 1 ∧
+    (G.sqrtnot_)ᴴ * G.sqrtnot_ = 1 ∧ (G.cnot_)ᴴ * G.cnot_ = 1 ∧ (G.csign_)ᴴ * G.csign_ = 1 ∧
+    (G.cy_gate_)ᴴ * G.cy_gate_ = 1 ∧ (G.cz_gate_)ᴴ * G.cz_gate_ = 1 ∧ (G.cs_gate_)ᴴ * G.cs_gate_ = 1 ∧
+    (G.ct_gate_)ᴴ * G.ct_gate_ = 1 ∧ (G.swap_)ᴴ * G.swap_ = 1 ∧ (G.iswap_)ᴴ * G.iswap_ = 1 ∧
+    (G.sqrtswap_)ᴴ * G.sqrtswap_ = 1 ∧ (G.sqrtiswap_)ᴴ * G.sqrtiswap_ = 1 ∧ (G.berkeley_)ᴴ * G.berkeley_ = 1 ∧
+    (G.fredkin_)ᴴ * G.fredkin_ = 1 ∧ (G.toffoli_)ᴴ * G.toffoli_ = 1 :=
+  ⟨x_unitary, y_unitary, z_unitary, s_unitary, t_unitary, snot_unitary, sqrtnot_unitary, cnot_unitary, csign_unitary,
+   cy_unitary, cz_unitary, cs_unitary, ct_unitary, swap_unitary, iswap_unitary, sqrtswap_unitary, sqrtiswap_unitary,
+   GateDoc.berkeley_unitary, fredkin_unitary, toffoli_unitary⟩
+
+/-! ## `controlled_gate` in general: every number of controls, control value, single-qubit U, injective placement
+
+`Ctrl.controlledGate` (Model/Ctrl.lean) is the model of the code's construction: `block_diag` with
+`block_matrices[control_value] = U` on flat indices, `Qobj(dims=[[2]*(m+1)]*2)`, then `expand_operator` with targets =
+controls + targets unless that list is already `range(N)`; `ctrlN m v U` is the same block matrix as an operator on
+`(ℂ²)^{⊗(m+1)}` (controls first, first control most significant, target last). -/
+open QipVerif.Ctrl
+
+/-- **Matrix element of a controlled gate**, for every number `m` of controls, every control value `v`, every
+single-qubit `U` and every injective placement `T` of (controls, target) on `N` qubits: `U` between the target bits
+when the control bits of `x` hold `v` (identity on the target otherwise), times δ on the controls and on all other qubits -/
+theorem controlled_apply {m N : ℕ} (T : Tg (m + 1) N) (v : ℕ) (U : Matrix (Fin 2) (Fin 2) ℂ) (x y : St N) :
+    T.embed (ctrlN m v U) x y =
+      (if (fun i : Fin m => x (T.f i.castSucc)) = (fun i : Fin m => y (T.f i.castSucc)) then
+        (if enc (fun i : Fin m => x (T.f i.castSucc)) = v then U (x (T.f (Fin.last m))) (y (T.f (Fin.last m)))
+         else if x (T.f (Fin.last m)) = y (T.f (Fin.last m)) then 1 else 0)
+       else 0) * (if ∀ i, i ∉ Set.range T.f → x i = y i then 1 else 0) := by
+  rw [Tg.embed_apply, ctrlN_apply]; rfl
+
+/-- … and it is unitary whenever `U` is -/
+theorem controlled_unitary {m N : ℕ} (T : Tg (m + 1) N) (v : ℕ) (U : Matrix (Fin 2) (Fin 2) ℂ) (h : Uᴴ * U = 1) :
+    (T.embed (ctrlN m v U))ᴴ * T.embed (ctrlN m v U) = 1 :=
+  Tg.embed_unitary T _ (ctrlN_unitary m v U h)
+
+/-- `ctrlN` is multiplicative in `U` (so are its placements): controlled-(UV) = controlled-U · controlled-V -/
+theorem controlled_mul {m N : ℕ} (T : Tg (m + 1) N) (v : ℕ) (U V : Matrix (Fin 2) (Fin 2) ℂ) :
+    T.embed (ctrlN m v (U * V)) = T.embed (ctrlN m v U) * T.embed (ctrlN m v V) := by
+  rw [← ctrlN_mul, Tg.embed_mul]
+
+/-- the 4×4 block `ctrl U` used by the path theorems (CRX, CRY, CRZ, CY, CS, CT, CPHASE) is the case m = 1, v = 1 -/
+theorem ctrl_is_ctrlN (U : Matrix (Fin 2) (Fin 2) ℂ) (a c : St 2) :
+    ctrlN 1 1 U a c = ctrl U ⟨enc a, enc_lt a⟩ ⟨enc c, enc_lt c⟩ := ctrlN_one_control U a c
+
+/-- **The code's construction computes it** (list level, for every `U`): for controls `cs`, target `t`, register size
+`N` (given or defaulted to m+1), control value `v < 2^m`, `cs ++ [t]` duplicate-free and in range — and whichever
+argument the compatibility line tests — `controlled_gate` succeeds on `N` qubits and its element between basis
+states `x`, `y` is the specification `Ctrl.specEntry` -/
+theorem controlled_gate_spec (ct : Which) (cs : List ℕ) (t N v : ℕ) (N? : Option ℕ) (hN : N?.getD (cs.length + 1) = N)
+    (hn : (cs ++ [t]).Nodup) (hr : ∀ q ∈ cs ++ [t], q < N) (hv : v < 2 ^ cs.length) :
+    ∃ r, controlledGate ct (.list (cs.map Int.ofNat)) (.list [Int.ofNat t]) N? (v : Int) = .ok r ∧ r.K = N ∧
+      ∀ x y, Bits N x → Bits N y → r.entry x y = Ctrl.specEntry N cs t v x y := by
+  rw [controlledGate_lists]; exact build_spec cs t N v N? hN hn hr hv
+
+example : ∃ r, controlledGate .targets (.list [3, 0]) (.list [1]) (some 4) 2 = .ok r ∧ r.K = 4 ∧
+    r.entry [0, 1, 0, 1] [0, 0, 0, 1] = .u 1 0 ∧ r.entry [1, 1, 0, 1] [1, 0, 0, 1] = .zero ∧
+    r.entry [1, 1, 0, 1] [1, 1, 0, 1] = .one := ⟨_, rfl, rfl, by decide, by decide, by decide⟩
+
+/-- … and over ℂ: the code's result is `ctrlN` placed on the qubits (controls…, target), hence unitary for unitary `U` -/
+theorem controlled_gate_model (ct : Which) (cs : List ℕ) (t N v : ℕ) (N? : Option ℕ) (U : Matrix (Fin 2) (Fin 2) ℂ)
+    (hN : N?.getD (cs.length + 1) = N) (hn : (cs ++ [t]).Nodup) (hr : ∀ q ∈ cs ++ [t], q < N) (hv : v < 2 ^ cs.length) :
+    ∃ r, controlledGate ct (.list (cs.map Int.ofNat)) (.list [Int.ofNat t]) N? (v : Int) = .ok r ∧ r.K = N ∧
+      (Matrix.of fun x y : St N => evalC U (r.entry (bitsL x) (bitsL y))) =
+        (tgQ N (cs ++ [t]) cs.length (by simp) hn hr).embed (ctrlN cs.length v U) := by
+  obtain ⟨r, h1, h2, h3⟩ := controlled_gate_spec ct cs t N v N? hN hn hr hv
+  refine ⟨r, h1, h2, ?_⟩
+  ext x y
+  have bx : ∀ z : St N, Bits N (bitsL z) := fun z =>
+    ⟨bitsL_length z, fun e he => by
+      simp only [bitsL, List.mem_ofFn] at he; obtain ⟨i, rfl⟩ := he; exact (z i).isLt⟩
+  rw [Matrix.of_apply, h3 _ _ (bx x) (bx y), spec_eq_embed N cs t v U hn hr x y]
+
+theorem controlled_gate_unitary (ct : Which) (cs : List ℕ) (t N v : ℕ) (N? : Option ℕ) (U : Matrix (Fin 2) (Fin 2) ℂ)
+    (hN : N?.getD (cs.length + 1) = N) (hn : (cs ++ [t]).Nodup) (hr : ∀ q ∈ cs ++ [t], q < N) (hv : v < 2 ^ cs.length)
+    (hU : Uᴴ * U = 1) :
+    ∃ r, controlledGate ct (.list (cs.map Int.ofNat)) (.list [Int.ofNat t]) N? (v : Int) = .ok r ∧
+      (Matrix.of fun x y : St N => evalC U (r.entry (bitsL x) (bitsL y)))ᴴ *
+        (Matrix.of fun x y : St N => evalC U (r.entry (bitsL x) (bitsL y))) = 1 := by
+  obtain ⟨r, h1, _, h3⟩ := controlled_gate_model ct cs t N v N? U hN hn hr hv
+  exact ⟨r, h1, by rw [h3]; exact controlled_unitary _ v U hU⟩
+
+/-- argument shapes: two bare integers behave as two one-element lists; negative control values wrap once
+(Python indexing); a control value outside [−2^m, 2^m) is refused -/
+theorem controlled_gate_shapes (ct : Which) (c t : Int) (cs ts : List Int) (N? : Option ℕ) (v : Int) (k : ℕ) :
+    controlledGate ct (.scalar c) (.scalar t) N? v = controlledGate ct (.list [c]) (.list [t]) N? v ∧
+    (0 < k → k ≤ 2 ^ cs.length →
+      controlledGate ct (.list cs) (.list ts) N? (-(k : Int)) =
+        controlledGate ct (.list cs) (.list ts) N? ((2 ^ cs.length - k : ℕ) : Int)) ∧
+    ((((2 ^ cs.length : ℕ) : Int) ≤ v ∨ v < -((2 ^ cs.length : ℕ) : Int)) →
+      controlledGate ct (.list cs) (.list ts) N? v = .error .blockIndex) := by
+  refine ⟨by rw [controlledGate_scalars, controlledGate_lists], fun h1 h2 => ?_, fun h => ?_⟩
+  · rw [controlledGate_lists, controlledGate_lists]; exact build_negative cs ts N? k h1 h2
+  · rw [controlledGate_lists]; exact build_rejects_value cs ts N? v h
+
+/-- **Mixed argument shapes** (a bare integer for one of `controls`/`targets`, a list for the other).  The source tests
+`targets` in BOTH compatibility lines (`cTest = .targets`, regenerated into `Gen.GF.ctrlCompatTest`): an integer
+`controls` with a list `targets` then raises TypeError (`len(controls)`), a list `controls` with an integer `targets` is
+wrapped into `[[…]]` and refused by `expand_operator`.  Had the first line tested `controls`, both calls would mean
+`controls=[c]` resp. `targets=[t]` and satisfy the specification above. -/
+theorem controlled_gate_mixed_shapes (c t : Int) (cs ts : List Int) (N? : Option ℕ) (v : Int) :
+    controlledGate .targets (.scalar c) (.list ts) N? v = .error .lenOfInt ∧
+    (controlledGate .targets (.list cs) (.scalar t) N? v = .error .nested ∨
+      controlledGate .targets (.list cs) (.scalar t) N? v = .error .blockIndex) ∧
+    controlledGate .controls (.scalar c) (.list ts) N? v = controlledGate .controls (.list [c]) (.list ts) N? v ∧
+    controlledGate .controls (.list cs) (.scalar t) N? v = controlledGate .controls (.list cs) (.list [t]) N? v := by
+  refine ⟨rfl, ?_, rfl, rfl⟩
+  show (match pyIndex 2 v with | none => _ | some _ => _) = _ ∨ (match pyIndex 2 v with | none => _ | some _ => _) = _
+  cases pyIndex 2 v with
+  | none => exact Or.inr rfl
+  | some b => exact Or.inl rfl
+
+/-- concrete witness of the refusal on the current source: `controlled_gate(U, controls=0, targets=[1])` and
+`controlled_gate(U, controls=[0], targets=1)` (both confirmed on the implementation by the correspondence) -/
+theorem controlled_gate_mixed_shapes_witness :
+    controlledGate .targets (.scalar 0) (.list [1]) none 1 = .error .lenOfInt ∧
+    controlledGate .targets (.list [0]) (.scalar 1) none 1 = .error .nested := ⟨rfl, rfl⟩
+
+/-! ## The names each lookup path offers -/
+
+/-- `Gate(name).get_compact_qobj()` resolves exactly these 32 names to a matrix (GLOBALPHASE is listed but raises; every
+other name falls into the final `else: raise`), `GATE_CLASS_MAP` has exactly these 36 keys, and the 30 names offered by
+both are the ones with a generated `path_*` theorem (`Gen.G.shared_names_complete`) -/
+theorem path_names :
+    G.genericPath.map Prod.fst =
+      ["RX", "RY", "RZ", "X", "Y", "CY", "Z", "CZ", "T", "CT", "S", "CS", "SQRTNOT", "SNOT", "PHASEGATE", "R", "QASMU",
+       "CRX", "CRY", "CRZ", "CPHASE", "CNOT", "CSIGN", "BERKELEY", "SWAPalpha", "SWAP", "ISWAP", "SQRTSWAP", "SQRTISWAP",
+       "FREDKIN", "TOFFOLI", "IDLE", "GLOBALPHASE"] ∧
+    G.classPath.map Prod.fst =
+      ["X", "Y", "Z", "RX", "RY", "RZ", "H", "SNOT", "SQRTNOT", "S", "T", "R", "QASMU", "SWAP", "ISWAP", "iSWAP", "CNOT",
+       "SQRTSWAP", "SQRTISWAP", "SWAPALPHA", "SWAPalpha", "BERKELEY", "MS", "TOFFOLI", "FREDKIN", "CSIGN", "CRX", "CRY",
+       "CRZ", "CY", "CX", "CZ", "CS", "CT", "CPHASE", "RZX"] ∧
+    G.sharedNames =
+      ["X", "Y", "Z", "RX", "RY", "RZ", "SNOT", "SQRTNOT", "S", "T", "R", "QASMU", "SWAP", "ISWAP", "CNOT", "SQRTSWAP",
+       "SQRTISWAP", "SWAPalpha", "BERKELEY", "TOFFOLI", "FREDKIN", "CSIGN", "CRX", "CRY", "CRZ", "CY", "CZ", "CS", "CT",
+       "CPHASE"] := by
+  refine ⟨by decide, by decide, by decide⟩
+
+/-- the refusals: names only one path knows.  The generic chain has no H, MS, RZX, CX, iSWAP, SWAPALPHA and raises for
+GLOBALPHASE; the class map has no PHASEGATE, IDLE, GLOBALPHASE.  Aliases resolve to the same function. -/
+theorem path_refusals :
+    (["H", "MS", "RZX", "CX", "iSWAP", "SWAPALPHA"].all fun n => (G.genericPath.lookup n).isNone) = true ∧
+    G.genericPath.lookup "GLOBALPHASE" = some "raise" ∧
+    (["PHASEGATE", "IDLE", "GLOBALPHASE"].all fun n => (G.classPath.lookup n).isNone) = true ∧
+    G.classPath.lookup "H" = G.classPath.lookup "SNOT" ∧ G.classPath.lookup "iSWAP" = G.classPath.lookup "ISWAP" ∧
+    G.classPath.lookup "SWAPALPHA" = G.classPath.lookup "SWAPalpha" ∧ G.classPath.lookup "CZ" = G.classPath.lookup "CSIGN" ∧
+    G.classPath.lookup "CX" = some "controlled_gate(sigmax())" ∧ G.classPath.lookup "MS" = some "molmer_sorensen(*arg)" ∧
+    G.classLiteral.lookup "RZX" = some "cls_RZX(arg)" := by
+  refine ⟨by decide, by decide, by decide, by decide, by decide, by decide, by decide, by decide, by decide, by decide⟩
+
+/-- the class-only gates denote what their aliases denote: H is SNOT; CX is the controlled X, i.e. CNOT -/
+theorem class_only_gates : ctrl G.x_gate_ = G.cnot_ ∧ ctrl (!![0, 1; 1, 0] : Matrix (Fin 2) (Fin 2) ℂ) = G.cnot_ := by
+  refine ⟨?_, ?_⟩ <;> (ext i j; fin_cases i <;> fin_cases j <;> simp [ctrl, G.x_gate_, G.cnot_])
+
+/-- `QubitCircuit.add_gate(name, …)` builds the class of `GATE_CLASS_MAP` when the name is a key and the generic `Gate`
+otherwise (extracted from circuit.py), so the circuit path offers the union of the two name sets and resolves a shared
+name like the class path — equal to the generic path by `path_*` -/
+theorem circuit_dispatch : G.circuitDispatch = "class-if-mapped-else-generic" := by decide
 
 end QipVerif.C09
